@@ -566,6 +566,23 @@ def build_member(kind: str, ctx: list[str], member: str, base0: Any,
         comp = {"n+1": lambda: n + 1, "1+n": lambda: 1 + n, "2n": lambda: 2 * n,
                 "n+n": lambda: n + n, "nt+1": lambda: n.tagged(foo()) + 1}[member[4:]]()
         return in_ctx(ctx, replace(base0, shape=(comp,)))
+    if member[:4] in ("sup:", "sub:"):
+        f = member[4:]
+        m = dict(getattr(base0, f))
+        if member[:4] == "sub:":
+            m.pop(sorted(m)[-1])
+        else:
+            extra_key = {"bindings": "_in9" if kind == "IndexLambda" else "zz_extra",
+                         "var_to_reduction_descr": "_r9", "_data": "zz", "returns": "zz",
+                         "redn_axis_to_redn_descr": None}[f]
+            if f == "redn_axis_to_redn_descr":
+                from pytato.array import EinsumReductionAxis, ReductionDescriptor
+                m[EinsumReductionAxis(7)] = ReductionDescriptor(frozenset())
+            else:
+                m[extra_key] = next(iter(m.values())) if f != "bindings" else ph("z9", (4, 3, 2))
+        if kind == "DictOfNamedArrays":
+            return in_ctx(ctx, replace(base0, _data=m))
+        return in_ctx(ctx, replace(base0, **{f: cdict(m)}))
     if member.startswith("tags") and member[4:].isdigit():
         # several tags of different classes with seed-dependent hashes
         from . import eqtags
@@ -633,6 +650,14 @@ def key_members(members: list[str]) -> list[str]:
 
 SYM_MEMBERS = {k: ["sym:n+1", "sym:1+n", "sym:2n", "sym:n+n", "sym:nt+1"]
                for k in ("IndexLambda", "Placeholder", "DistributedRecv")}
+# a MAPPING-valued field with one entry more ("sup:") or one entry fewer ("sub:") than the
+# base, the common entries identical: different from the base in BOTH directions of ==
+for _k, _ms in {"IndexLambda": ["sup:bindings", "sup:var_to_reduction_descr"],
+                "DictOfNamedArrays": ["sup:_data", "sub:_data"],
+                "FunctionDefinition": ["sup:returns", "sub:returns"],
+                "Einsum": ["sup:redn_axis_to_redn_descr"],
+                "LoopyCall": ["sup:bindings"]}.items():
+    SYM_MEMBERS[_k] = SYM_MEMBERS.get(_k, []) + _ms
 
 
 def safe_hash(o: Any) -> str:
